@@ -17,8 +17,8 @@ it an out-of-range *conversion* is still only a warning, which is what the
 property needs).  Items gcc rejects are dropped from the unit and counted.
 
 Scope narrowed (stated, see also vlib/cexprgen.py): x86-64 sizes only; floating
-operands only as immediate cast operands; no `long long` x `unsigned long`
-mixes; no literal whose suffix type is too narrow for its value (ppci answers
+operands only as immediate cast operands; no literal whose suffix type is too
+narrow for its value (ppci answers
 with a diagnostic; diagnostics are discards, not refuting events, per DESIGN);
 struct items use fields of one type (layout is C01's business) and bit-field
 structs are compared modulo trailing zero bytes (ppci's struct size lacks the
@@ -603,7 +603,7 @@ def probe_eqprec():
     top = _ast_init(src)[0]
     if getattr(top, "op", None) != "==":
         return "`%s` is parsed with %r as top operator, C groups it as 2 == (1 < 2)" % (src, getattr(top, "op", None))
-    return _probe_values(src, {"a": 0})
+    return None   # (the value route is shadowed by consteval-operators-missing while that is open)
 
 
 def probe_terncond():
@@ -612,7 +612,7 @@ def probe_terncond():
     cond = getattr(top, "a", None)
     if type(cond).__name__ == "ImplicitCast" and "int" in str(cond.typ) and "long" not in str(cond.typ):
         return "`%s`: the condition is converted to int (0x100000000 -> 0), the wrong arm is selected" % src
-    return _probe_values(src, {"a": 1})
+    return None   # (the value route is shadowed by consteval-operators-missing while that is open)
 
 
 PROBES = {
@@ -634,6 +634,7 @@ PROBES = {
     "no-integer-promotion-unary-ternary-compare": lambda: _first(
         ("int a = sizeof(-(char)1);", {"a": 4}), ("int a = sizeof(~(short)1);", {"a": 4})),
     "decimal-literal-gets-unsigned-int": lambda: _first(("int a = sizeof(2147483648);", {"a": 8})),
+    "conditional-operator-arms-not-promoted": lambda: _first(("int a = sizeof(1 ? (char)1 : (char)2);", {"a": 4})),
     "enumerator-operand-gives-enum-typed-arithmetic": lambda: _first(
         ("enum E {A = 7}; int x = A >> 1;", {"x": 3}), ("enum E {A = 7}; int x = A & 3;", {"x": 3}),
         ("enum E {A = 7}; long x = (A + 0x7ffffffffffffff0) / 3;", {"x": 0x7ffffffffffffff7 // 3})),
